@@ -89,17 +89,27 @@ class CumulativeFinalize(Expr):
             else:
                 # aggregate with previous cumulation results
                 dsk[(intermediate_name, i)] = (
-                    methods._cum_aggregate_apply,
+                    _cum_aggregate,
                     self.aggregator,
                     (intermediate_name, i - 1),
                     (previous_partitions._name, i - 1),
                 )
             dsk[(self._name, i)] = (
+                _cum_aggregate,
                 self.aggregator,
                 (self.frame._name, i),
                 (intermediate_name, i),
             )
         return dsk
+
+
+def _cum_aggregate(aggregate, x, y):
+    # Leading partitions that are empty (or all-NaN) have no last value yet
+    if y is None:
+        return x
+    if x is None:
+        return y
+    return aggregate(x, y)
 
 
 class CumSum(CumulativeAggregations):
